@@ -145,6 +145,16 @@ def needed_fixtures(pd, force):
     return _closure(fx, direct)
 
 
+def _inst_key(fx, name, task):
+    """The scope instance of fixture `name` that code running in `task` sees."""
+    scope = (fx.get(name) or {}).get("scope")
+    if scope == "test":
+        return (name, task)
+    if scope == "suite" and task:
+        return (name, task[1].rsplit(".", 1)[0] if task[0] == "TestTask" else task[1])
+    return (name,)
+
+
 def c03_oracle(case, r):
     hits = []
     oc = r.get("outcome") or ["?"]
@@ -158,6 +168,7 @@ def c03_oracle(case, r):
     cur = {}                      # thread -> current task label (tuple)
     owner = {}                    # user thread name -> task label
     failed_locs = set()
+    nfail, began, last_status = {}, {}, {}     # failures recorded per location; count at the begin of a fixture setup; begun/clean/failed
     setups = {}                   # value -> dict(name, task, idx, clean)
     setup_count = {}
     teardowns = {}                # value -> [idx]
@@ -180,14 +191,26 @@ def c03_oracle(case, r):
             owner[a[4]] = task
         elif op == "flag" and a[2] == "failure":
             failed_locs.add((a[3][0], a[3][1]))
+            nfail[(a[3][0], a[3][1])] = nfail.get((a[3][0], a[3][1]), 0) + 1
         elif op == "fx_setup_begin":
             key = (a[2], task)
             setup_count[key] = setup_count.get(key, 0) + 1
             if setup_count[key] > 1:
                 hits.append(("fixture-evaluated-twice", "fixture %s evaluated twice in %s" % (a[2], task)))
+            loc = (LOC_OF_KIND.get(task[0]), task[1]) if task else None
+            began[key] = nfail.get(loc, 0)
+            # a fixture is a consumer of its parameters: it is not evaluated when one of them failed to set up
+            for prm in (fx.get(a[2]) or {}).get("params", []):
+                if prm in fx and last_status.get(_inst_key(fx, prm, task)) in ("begun", "failed"):
+                    hits.append(("fixture-evaluated-after-dependency-failed",
+                                 "fixture %s was evaluated in %s although the setup of its parameter %s had failed" % (a[2], task, prm)))
+            last_status[_inst_key(fx, a[2], task)] = "begun"
         elif op == "fx_setup_end":
             loc = (LOC_OF_KIND.get(task[0]), task[1]) if task else None
-            setups[a[3]] = {"name": a[2], "task": task, "idx": i, "clean": loc not in failed_locs}
+            # "whose setup completed without recording a failure": no failure was recorded in its location while it was set up
+            own_clean = nfail.get(loc, 0) == began.get((a[2], task), 0)
+            setups[a[3]] = {"name": a[2], "task": task, "idx": i, "clean": own_clean}
+            last_status[_inst_key(fx, a[2], task)] = "clean" if own_clean else "failed"
         elif op == "fx_teardown_begin":
             teardowns.setdefault(a[3], []).append(i)
             phase_td_order.setdefault(task, []).append(a[3])
@@ -329,12 +352,42 @@ TASK_LOC = {"TestTask": "test", "SuiteInitializationTask": "suite_setup", "Suite
             "TestSessionSetupTask": "session_setup", "TestSessionTeardownTask": "session_teardown"}
 
 
+def _abnormal_end(oc, what):
+    """No fault, interrupt or BaseException is injected in the runs of this property: a run that does not return normally cannot
+    satisfy it (%s), whatever made it crash (a reporting backend such as the report writer included)."""
+    if oc[0] in ("hang", "sched_abort"):
+        return [("run-does-not-terminate", "the run does not terminate: %s" % (str(oc[1])[:200],))]
+    if oc[0] == "raised":
+        return [("run-raised:" + str(oc[1]), "the run raised %s, so %s: %s" % (oc[1], what, str(oc[2])[:300].replace("\n", " ")))]
+    return []
+
+
+def _success_flags(oc, rep, results):
+    hits = []
+    all_ok = all(res["status"] in ("passed", "disabled") for res in results.values())
+    if bool(rep["is_successful"]) != all_ok:
+        hits.append(("report-success-flag-wrong", "Report.is_successful() is %s but all results passed/disabled is %s" % (rep["is_successful"], all_ok)))
+    if bool(oc[1]) != all_ok:
+        hits.append(("run-return-value-wrong", "the run returned %s but all results passed/disabled is %s" % (oc[1], all_ok)))
+    return hits
+
+
+def c02_success_oracle(case, r):
+    """The last sentence of C02 only (the run is reported successful iff every test and phase is passed or disabled), for runs
+    whose verdicts the full oracle does not judge: interrupted runs, where tests are skipped although nothing failed."""
+    oc = r.get("outcome") or ["?"]
+    rep = r.get("report")
+    if oc[0] != "returned" or rep is None:
+        return _abnormal_end(oc, "the outcome of the run is not reported")
+    return _success_flags(oc, rep, _results_of_report(rep))
+
+
 def c02_oracle(case, r):
     hits = []
     oc = r.get("outcome") or ["?"]
     rep = r.get("report")
     if oc[0] != "returned" or rep is None:
-        return hits
+        return hits + _abnormal_end(oc, "the verdicts are not reported")
     results = _results_of_report(rep)
     # failing actions really executed, per location: exceptions raised by user code (trace) and failing logs fired (stream)
     failing = {}
@@ -387,11 +440,7 @@ def c02_oracle(case, r):
         if key not in results:
             hits.append(("failure-not-reported", "a failure happened in %s %s but the report has no such result" % key))
     # the three notions of success agree
-    all_ok = all(res["status"] in ("passed", "disabled") for res in results.values())
-    if bool(rep["is_successful"]) != all_ok:
-        hits.append(("report-success-flag-wrong", "Report.is_successful() is %s but all results passed/disabled is %s" % (rep["is_successful"], all_ok)))
-    if bool(oc[1]) != all_ok:
-        hits.append(("run-return-value-wrong", "the run returned %s but all results passed/disabled is %s" % (oc[1], all_ok)))
+    hits += _success_flags(oc, rep, results)
     # session failures = results that failed or were skipped
     marked = set(r.get("failures") or [])
     for key, res in results.items():
@@ -443,7 +492,7 @@ def c04_oracle(case, r):
         hits.append(("valid-graph-rejected", "a valid dependency graph was rejected: %s" % (oc[2][:200],)))
         return hits
     if oc[0] != "returned" or not r.get("report"):
-        return hits
+        return hits + _abnormal_end(oc, "the tests are not accounted for")
     trans, direct = transitive_deps(pd)
     status = dict(report_tests(r["report"]))
     details = {}
@@ -549,7 +598,7 @@ def expected_steps(pd):
 def c06_oracle(case, r):
     hits = []
     if (r.get("outcome") or ["?"])[0] != "returned" or not r.get("report"):
-        return hits
+        return hits + _abnormal_end(r.get("outcome") or ["?"], "what the tests emitted is not recorded")
     exp_steps = expected_steps(case.get("scheduled_project") or case["project"])
     fx_scopes = {f["name"]: f["scope"] for f in (case.get("scheduled_project") or case["project"]).get("fixtures", [])}
     # 1. events: the location of every user log is the location of the code that emitted it; threads are not confused
@@ -870,13 +919,38 @@ def c08_oracle(case, r):
             if status.get(path) != "skipped":
                 hits.append(("started-after-%s" % kind.lower().replace("_", "-"),
                              "test %s was taken by a worker after %s was visible and is %s instead of skipped" % (path, what, status.get(path))))
-    # sub-suites are not affected by AbortSuite
-    for vis, kind, suite, what in resolved:
-        if kind != "AbortSuite":
-            continue
-        others = [k for (v, k, s, w) in resolved if k != "AbortSuite"]
-        if others:
-            continue
+    # sub-suites are not affected by AbortSuite: the reason "the tests of this test suite have been aborted" may only be given to
+    # tests whose OWN suite raised AbortSuite
+    details = {}
+    for key, res in _results_of_report(r["report"]).items():
+        if key[0] == "test":
+            details[key[1]] = res.get("status_details")
+    test_deps = {}
+    for spath, su, _dis in walk_suites(pd):
+        for t in su.get("tests", []):
+            test_deps[spath + "." + t["name"]] = list(t.get("deps") or [])
+    raised_in = set()
+    for i, a in enumerate(trace):
+        if a[1] == "raise" and a[3] == "AbortSuite" and "#" not in a[2]:
+            t = _owner_location(a[2])
+            if t and t[0] == "test":
+                raised_in.add(t[1].rsplit(".", 1)[0])
+            elif ":" in a[2] and a[2].split(":", 1)[0] in ("fxsetup", "fxteardown"):
+                raised_in.add(None)              # a fixture: the suite is the one of the test it runs in; do not judge
+    for path, d in details.items():
+        if status.get(path) == "skipped" and d and "of this test suite have been aborted" in d:
+            # (a test skipped because a test it depends on was skipped inherits that test's reason: not judged here)
+            # (through a disabled test too, whose task is skipped with the reason while it is reported disabled: any dependency)
+            inherited = bool(test_deps.get(path))
+            if None not in raised_in and path.rsplit(".", 1)[0] not in raised_in and not inherited:
+                hits.append(("test-of-other-suite-skipped-by-abortsuite",
+                             "test %s was skipped because 'the tests of this test suite have been aborted' but AbortSuite was only raised in %s" % (
+                                 path, sorted(x for x in raised_in if x))))
+    # "skipped with an explanatory reason": every test skipped by one of these triggers says why
+    if resolved:
+        for path, d in details.items():
+            if status.get(path) == "skipped" and not d:
+                hits.append(("skipped-without-reason", "test %s was skipped after %s without any reason in its status details" % (path, resolved[0][3])))
     # the report is complete, the session end was delivered, the run is unsuccessful
     for path in exp:
         if path not in status:
@@ -933,6 +1007,14 @@ def c11_oracle(case, r):
             hits.append(("error-text-lost", "the error raised to the caller (%s) does not carry the original text %r: %r" % (oc[1], want, text[:120])))
         if FAULT_CLASS[fault["cls"]] not in text and FAULT_CLASS[fault["cls"]] != oc[1]:
             hits.append(("error-class-lost", "the error raised to the caller (%s) mentions neither the class nor the traceback of %s" % (oc[1], FAULT_CLASS[fault["cls"]])))
+    # the handler thread stops at the first failure: nothing is delivered after the event on which the backend raised, and the
+    # failure kept for the caller is the FIRST one (a backend that would fail again on later events is never called again)
+    delivered = len(r.get("events") or [])
+    if delivered > fault["at"] + 1:
+        hits.append(("event-delivered-after-backend-failure", "%d events were delivered to the backend after it raised at event %d" % (
+            delivered - fault["at"] - 1, fault["at"])))
+    if oc[0] == "raised" and "second-fault" in (oc[2] if len(oc) > 2 else ""):
+        hits.append(("later-failure-overwrote-first", "the error raised to the caller is that of a later failure: %r" % (oc[2][:120],)))
     # no further test body is started once the failure is visible (= recorded before the worker took the task)
     vis = next(i for i, a in enumerate(trace) if a[1] == "flag" and a[2] == "pending")
     take_idx = {}
